@@ -45,7 +45,7 @@ MARK = b"FORGED-BY-ATTACKER-"
 
 def plan(tier):
     if tier == "quick":
-        return ([{"part": "hist", "n": 110, "i": i} for i in range(10)] +
+        return ([{"part": "hist", "n": 200, "i": i} for i in range(10)] +
                 [{"part": "prekey", "n": 60, "i": i} for i in range(3)] +
                 [{"part": "flips", "n": 3, "i": i} for i in range(3)])
     return ([{"part": "hist", "n": 6000, "i": i} for i in range(9)] +
